@@ -17,6 +17,7 @@ import CfavmlModel.Hand.AlignedBuffer
 import CfavmlModel.Hand.TransposeGlue
 import CfavmlModel.Spec.Wrappers
 import CfavmlModel.Spec.Dispatch
+import CfavmlModel.Spec.SafeApi
 import CfavmlModel.Gen.Tables
 
 namespace Cfavml.Driver
@@ -242,19 +243,13 @@ def kernelStr : Kernel → String
   | .generic_add_vector => "generic_add_vector" | .generic_sub_vector => "generic_sub_vector"
   | .generic_mul_vector => "generic_mul_vector" | .generic_div_vector => "generic_div_vector"
 
-open Tables Spec in
-/-- the (register, kernel) a routine name stands for -/
-def decodeRoutine (ty : ElemTy) (form : Form) (toks : List Tok) : Option (RegName × Kernel) :=
-  ([RegName.Fallback, .Avx2, .Avx2Fma, .Avx512, .Neon].flatMap fun reg =>
-    allKernels.filterMap fun op => if routineName ty form reg op == some toks then some (reg, op) else none).head?
-
 /-- number of elements of a `m:` argument -/
 def memLen (tok : String) : Nat :=
   let body := (tok.drop 2).toString
   if body == "-" || body == "" then 0 else (body.splitOn ",").length
 
 open Tables Spec in
-/-- which kern-level request the safe call amounts to, or `none` for a panic of the wrapper -/
+/-- which kern-level request the safe call amounts to (`Spec.safePlan`), or `none` for a panic of the wrapper -/
 def safeRequest (name : String) (isConst : Bool) (D : Nat) (mask : Nat) (nightly : Bool) (rest : List String) :
     Except String (Option String) := do
   let some r := safeRows.find? (fun r => r.anyNameStr == name) | throw "bad-request unknown safe function"
@@ -263,19 +258,13 @@ def safeRequest (name : String) (isConst : Bool) (D : Nat) (mask : Nat) (nightly
   if arm.params.length != rest.length then throw "bad-request argument count"
   let lensL : List (Param × Nat) := (arm.params.zip rest).map (fun (p, t) => (p.1, memLen t))
   let lens : Param → Nat := fun p => ((lensL.find? (fun q => q.1 == p)).map (·.2)).getD 0
-  if !assertsPass lens D arm.asserts then return none
-  let b : Build := { features := [.std] ++ (if nightly then [.nightly] else []), arch := .x86_64, targetFeatures := [], flags := [.cfavml_verif] }
   let av : Avail := ⟨mask % 2 == 1, (mask / 2) % 2 == 1, (mask / 4) % 2 == 1, (mask / 8) % 2 == 1⟩
-  let supplied : Slot → Bool := fun s => arm.slots.any (fun x => x.label == s)
-  let slot := selectedBy dispatchCandidates dispatchFallbackLabel b supplied av
-  let some sl := arm.slots.find? (fun x => x.label == slot) | throw "bad-request selected slot not in the arm"
-  let some toks := lookupBinding r.bindings sl.fnVarSlot sl.fnVarForm | throw "bad-request no binding for the slot"
-  let some (reg, op) := decodeRoutine r.ty sl.fnVarForm toks | throw "bad-request routine name not decodable"
-  -- arguments in the order the slot hands them on
-  let argOf : Param → String := fun p => (((arm.params.zip rest).find? (fun q => q.1.1 == p)).map (·.2)).getD "m:-"
-  let args := sl.args.map argOf
-  let dims := if sl.passesDims then D else lens .a
-  return some s!"kern {regNameStr reg} {tyName r.ty} {kernelStr op} {toHex dims} {" ".intercalate args}"
+  match safePlan r form lens D av nightly with
+  | none => throw "bad-request tables do not determine the call"
+  | some none => return none
+  | some (some (p, dims)) =>
+    let argOf : Param → String := fun q => (((arm.params.zip rest).find? (fun x => x.1.1 == q)).map (·.2)).getD "m:-"
+    return some s!"kern {regNameStr p.reg} {tyName r.ty} {kernelStr p.op} {toHex dims} {" ".intercalate (p.args.map argOf)}"
 
 partial def handle (E : Env) (line : String) : Env × String :=
   match line.trimAscii.toString.splitOn " " with
